@@ -1170,3 +1170,146 @@ Proof.
     destruct (Hpos (SLeaf (tok_leaf fl)) (tok_leaf_ok fl Hf) ltac:(cbn; lia)) as (st & Hst).
     exists st. intros f A. specialize (Hst f A). cbn [print_val] in Hst. rewrite print_tok_leaf in Hst. exact Hst.
 Qed.
+
+(* ================================================================================================ *)
+(* F. the whole argument list                                                                        *)
+(* ================================================================================================ *)
+Definition follows_ok (rst : str) : Prop :=
+  exists w r, rst = w ++ r /\ forallb is_ws w = true /\ end_ok CTop w r = true.
+
+Definition kv (a : attr) : option str * node := (a_key a, a_value a).
+Definition item_kv (it : item) : option str * node := (item_key it, item_node it).
+Definition tok_node (t : str) : node := top_ast None (SLeaf (tok_leaf t)).
+
+Lemma tok_first t : tok_ok t = true ->
+  exists x s, t = x :: s /\ is_ws x = false /\ N.eqb x 124 || N.eqb x 58 = false.
+Proof.
+  intro H. destruct (tok_ok_parts t H) as (x & s & -> & Hx & _). exists x, s. split; [reflexivity|].
+  split.
+  - unfold is_ws. eapply existsb_incl; [exact Hx | reflexivity].
+  - assert (E : existsb (N.eqb x) [124; 58]%N = false) by (eapply existsb_incl; [exact Hx | reflexivity]).
+    cbn [existsb] in E. rewrite orb_false_r in E. exact E.
+Qed.
+
+Lemma item_first allowed lay it : forallb tok_ok allowed = true -> item_ok allowed it = true ->
+  exists x s, print_item lay it = x :: s /\ is_ws x = false /\ N.eqb x 124 || N.eqb x 58 = false.
+Proof.
+  intros Hal Hok. destruct it as [v|k v|v|fl]; cbn [item_ok print_item] in *.
+  - apply andb_true_iff in Hok as [Hok _]. apply andb_true_iff in Hok as [Hok _]. apply andb_true_iff in Hok as [Hv _].
+    destruct (val_lead lay v Hv) as (x & s & E & Hx). exists x, s. split; [exact E|]. split.
+    + unfold is_ws. eapply existsb_incl; [exact Hx | reflexivity].
+    + assert (E' : existsb (N.eqb x) [124; 58]%N = false) by (eapply existsb_incl; [exact Hx | reflexivity]).
+      cbn [existsb] in E'. rewrite orb_false_r in E'. exact E'.
+  - apply andb_true_iff in Hok as [Hok _]. apply andb_true_iff in Hok as [Hok _]. apply andb_true_iff in Hok as [Hk _].
+    destruct (key_ok_parts k Hk) as (x & k' & -> & H58 & Hx & _). eexists x, _. split; [reflexivity|].
+    unfold key_char in Hx. apply negb_true_iff in Hx. split.
+    + unfold is_ws. eapply existsb_incl; [exact Hx | reflexivity].
+    + assert (E' : existsb (N.eqb x) [124]%N = false) by (eapply existsb_incl; [exact Hx | reflexivity]).
+      cbn [existsb] in E'. rewrite orb_false_r in E'. rewrite E'. apply N.eqb_neq. exact H58.
+  - eexists _, _. split; [reflexivity|]. split; reflexivity.
+  - assert (Hf : tok_ok fl = true).
+    { unfold str_in in Hok. apply existsb_exists in Hok as [a [Ha E]]. apply str_eqb_eq in E. subst a.
+      rewrite forallb_forall in Hal. apply Hal. exact Ha. }
+    apply tok_first. exact Hf.
+Qed.
+
+Lemma follows_cons w1 x s : forallb is_ws w1 = true -> w1 <> [] -> is_ws x = false -> N.eqb x 124 || N.eqb x 58 = false ->
+  follows_ok (w1 ++ x :: s).
+Proof.
+  intros Hw Hne Hx Hf. exists w1, (x :: s). split; [reflexivity|]. split; [exact Hw|].
+  cbn [end_ok nows]. rewrite Hx, Hf. destruct w1; [congruence | reflexivity].
+Qed.
+
+Lemma w1_nonempty lay i : w1 lay i <> [].
+Proof. destruct (w1_cons lay i) as (y & w & E & _). rewrite E. discriminate. Qed.
+
+Lemma items_run allowed : forall items lay d rst,
+  forallb tok_ok allowed = true -> forallb (item_ok allowed) items = true -> follows_ok rst ->
+  exists attrs', map kv attrs' = map item_kv items /\
+    forall f A, attrs_loop (S (length items + f)) (mkcur d (print_items lay items ++ rst)) A
+                = attrs_loop (S f) (mkcur (rev (print_items lay items) ++ d) rst) (A ++ attrs').
+Proof.
+  induction items as [|it items IH]; intros lay d rst Hal Hok Hfo.
+  - exists []. split; [reflexivity|]. intros f A. cbn [print_items app rev length plus]. rewrite app_nil_r. reflexivity.
+  - cbn [forallb] in Hok. apply andb_true_iff in Hok as [Hit Hok].
+    cbn [print_items]. 
+    (* what follows this argument *)
+    assert (Hnext : follows_ok (print_items (sub lay 2) items ++ rst)).
+    { destruct items as [|it' items']; [exact Hfo|]. cbn [forallb] in Hok. apply andb_true_iff in Hok as [Hit' _].
+      destruct (item_first allowed (sub (sub lay 2) 1) it' Hal Hit') as (x & s & E & Hx & Hf).
+      cbn [print_items]. rewrite E. rewrite <- !app_assoc. cbn [app].
+      apply follows_cons; [apply w1_ws | apply w1_nonempty | exact Hx | exact Hf]. }
+    destruct Hnext as (w & r & Erst & Hw & He).
+    destruct (item_run allowed (sub lay 1) it d (w1 lay 0) w r Hal Hit (w1_ws _ _) Hw He) as (st & Hst).
+    destruct (IH (sub lay 2) (rev (w1 lay 0 ++ print_item (sub lay 1) it) ++ d) rst Hal Hok Hfo) as (attrs' & Hkv & Hrun).
+    exists (mkattr (item_key it) (item_node it) st :: attrs'). split; [cbn [map]; rewrite Hkv; reflexivity|].
+    intros f A. cbn [length plus].
+    replace ((w1 lay 0 ++ print_item (sub lay 1) it ++ print_items (sub lay 2) items) ++ rst)
+      with (w1 lay 0 ++ print_item (sub lay 1) it ++ w ++ r) by (rewrite <- Erst, <- !app_assoc; reflexivity).
+    rewrite Hst. rewrite <- Erst. rewrite Hrun. rewrite <- app_assoc. cbn [app].
+    f_equal. f_equal. norm_rev. reflexivity.
+Qed.
+
+(* the slash is one more word; it is let through the flag test of item_ok by adding it to the flag names *)
+Lemma item_ok_slash allowed it : item_ok allowed it = true -> item_ok ([47%N] :: allowed) it = true.
+Proof.
+  destruct it as [v|k v|v|fl]; cbn [item_ok]; intro H; try exact H.
+  - apply andb_true_iff in H as [H H4]. apply andb_true_iff in H as [H H3]. rewrite H, H3. cbn [andb].
+    destruct v as [l| |]; try reflexivity. cbn [not_slash] in H3. unfold str_in in *. cbn [existsb].
+    rewrite negb_orb. rewrite H3. exact H4.
+  - unfold str_in in *. cbn [existsb]. rewrite H. apply orb_true_r.
+Qed.
+
+Lemma follows_items allowed : forall items lay rst, forallb tok_ok allowed = true ->
+  forallb (item_ok allowed) items = true -> follows_ok rst -> follows_ok (print_items lay items ++ rst).
+Proof.
+  intros items lay rst Hal Hok Hfo. destruct items as [|it items]; [exact Hfo|].
+  cbn [forallb] in Hok. apply andb_true_iff in Hok as [Hit _].
+  destruct (item_first allowed (sub lay 1) it Hal Hit) as (x & s & E & Hx & Hf).
+  cbn [print_items]. rewrite E. rewrite <- !app_assoc. cbn [app].
+  apply follows_cons; [apply w1_ws | apply w1_nonempty | exact Hx | exact Hf].
+Qed.
+
+Lemma follows_trailing lay i : follows_ok (w0 lay i).
+Proof.
+  exists (w0 lay i), []. split; [rewrite app_nil_r; reflexivity|]. split; [apply w0_ws|].
+  cbn [end_ok nows]. destruct (w0 lay i); reflexivity.
+Qed.
+
+(* the text of a whole tag *)
+Theorem parse_tag_print allowed lay tag a : arglist_ok tag allowed a = true ->
+  exists attrs, parse_tag (print lay tag a) = Ok (print lay tag a, attrs) /\
+    map kv attrs = (None, tok_node tag) :: map item_kv (items_with_slash a).
+Proof.
+  intro Hok. unfold arglist_ok in Hok.
+  apply andb_true_iff in Hok as [Hok _]. apply andb_true_iff in Hok as [Hok Hitems].
+  apply andb_true_iff in Hok as [Hok _]. apply andb_true_iff in Hok as [Htag Hal].
+  set (allowed' := [47%N] :: allowed).
+  assert (Hal' : forallb tok_ok allowed' = true) by (subst allowed'; cbn [forallb]; rewrite Hal; reflexivity).
+  assert (Hits : forallb (item_ok allowed') (items_with_slash a) = true).
+  { unfold items_with_slash. rewrite forallb_app. apply andb_true_iff. split.
+    - rewrite forallb_forall in *. intros it Hit. apply item_ok_slash. apply Hitems. exact Hit.
+    - destruct (al_slash a); reflexivity. }
+  set (its := items_with_slash a) in *.
+  pose proof (follows_items allowed' its (sub lay 0) (w0 lay 2) Hal' Hits (follows_trailing lay 2)) as Hfo.
+  destruct Hfo as (w & r & Erst & Hw & He).
+  (* 1. the tag name *)
+  destruct (item_run [tag] lay (IFlag tag) [] [] w r) as (st & Htagrun); auto.
+  { cbn [forallb]. rewrite Htag. reflexivity. }
+  { cbn [item_ok]. unfold str_in. cbn [existsb]. rewrite str_eqb_refl. reflexivity. }
+  (* 2. the arguments and the slash *)
+  destruct (items_run allowed' its (sub lay 0) (rev tag) (w0 lay 2) Hal' Hits (follows_trailing lay 2)) as (attrs' & Hkv & Hrun).
+  (* 3. put together, with more fuel than needed *)
+  assert (Hbig : attrs_loop (S (S (length its + 0))) (mkcur [] (print lay tag a)) []
+                 = Ok (rev (rev (w0 lay 2) ++ rev (print_items (sub lay 0) its) ++ rev tag),
+                       [mkattr None (tok_node tag) st] ++ attrs')).
+  { unfold print. fold its. rewrite Erst.
+    specialize (Htagrun (length its + 0) []). cbn [print_item app rev] in Htagrun. rewrite !app_nil_r in Htagrun.
+    rewrite Htagrun. rewrite <- Erst. rewrite Hrun. rewrite attrs_loop_end by apply w0_ws. reflexivity. }
+  pose proof (parse_tag_spec (print lay tag a)) as Hspec. unfold parse_tag in *.
+  destruct (attrs_loop (S (length (print lay tag a))) (mkcur [] (print lay tag a)) []) as [[n attrs]|k|] eqn:E; [| |contradiction].
+  - pose proof (attrs_loop_det _ _ _ _ _ _ E ltac:(discriminate) Hbig ltac:(discriminate)) as Hd.
+    injection Hd as _ Ha. exists attrs. split; [rewrite Hspec; reflexivity|].
+    rewrite Ha. cbn [map app kv a_key a_value]. rewrite Hkv. reflexivity.
+  - exfalso. pose proof (attrs_loop_det _ _ _ _ _ _ E ltac:(discriminate) Hbig ltac:(discriminate)). discriminate.
+Qed.
